@@ -469,6 +469,11 @@ class Real:
         log = []
 
         class Logging:
+            """stands in for the `random` module inside randgraph.py: randint / sample are logged; any OTHER use of
+            the generator is passed through and recorded as a deviation from the draw protocol the model replays
+            (one randint, one sample per vertex) — the model tie is then unavailable for this run, nothing else"""
+            deviated = False
+
             @staticmethod
             def randint(a, b):
                 r = _random.randint(a, b)
@@ -478,16 +483,29 @@ class Real:
             @staticmethod
             def sample(pop, k):
                 smp = _random.sample(pop, k)
+                if not log or log[-1][1] is not None:
+                    Logging.deviated = True
+                    return smp
                 log[-1][1] = [next(j for j, x in enumerate(pop) if x is y) for y in smp]
                 return smp
 
-        old = rgmod.random
-        rgmod.random = Logging
+            def __getattr__(self, name):
+                Logging.deviated = True
+                return getattr(_random, name)
+
         _random.seed(seed)
+        if getattr(rgmod, "random", None) is not _random:
+            # the module no longer reaches the generator through `random.<fn>`: it cannot be tapped
+            Logging.deviated = True
+            u = rgmod.randgraph(count, cls, conn, ens)
+            return u, None
+        rgmod.random = Logging()
         try:
             u = rgmod.randgraph(count, cls, conn, ens)
         finally:
-            rgmod.random = old
+            rgmod.random = _random
+        if Logging.deviated or any(s is None for _r, s in log):
+            return u, None
         return u, log
 
     def vfilt(self, k):
